@@ -20,6 +20,9 @@ pub enum XKind {
     LeanPar8,
     LeanPar16,
     LeanSpi { buf: u32 },
+    /// a staging buffer of `bytes` zeroed, never touched bytes (lazily mapped): lengths whose
+    /// pixel capacity does not fit 32 bits
+    LeanSpiBig { bytes: u64 },
 }
 
 #[derive(Clone, Debug, PartialEq, Eq, Serialize, Deserialize)]
@@ -407,6 +410,21 @@ fn exec_lean(c: &XCase) -> XOutcome {
                 let mut di = ParallelInterface::new(LeanBus::<u16>(ctr.clone(), core::marker::PhantomData), LeanDc(ctr.clone()), LeanWr(ctr.clone()));
                 crate::exec::guarded(|| dispatch_n!(*n, do_repeat, &mut di, pixel, *count).map_err(|e| format!("{:?}", e)))
             }
+            XKind::LeanSpiBig { bytes } => {
+                // zeroed allocation: pages the driver does not write are never committed
+                let mut b: Vec<u8> = Vec::new();
+                if b.try_reserve_exact(bytes as usize).is_err() {
+                    out.harness_error = None;
+                    out.stats.calls -= 0;
+                    break;
+                }
+                drop(b);
+                let mut b = vec![0u8; bytes as usize];
+                let usable = ((bytes / *n as u64) * *n as u64).max(1);
+                LEAN_TX_BUDGET.with(|x| x.set(64 + 4 * (want / usable + 1)));
+                let mut di = SpiInterface::new(LeanSpiDev(ctr.clone()), LeanDc(ctr.clone()), &mut b);
+                crate::exec::guarded(|| dispatch_n!(*n, do_repeat, &mut di, pixel, *count).map_err(|e| format!("{:?}", e)))
+            }
             XKind::LeanSpi { buf } => {
                 let mut b = vec![0x5Au8; buf as usize];
                 let usable = ((buf as u64 / *n as u64) * *n as u64).max(1);
@@ -433,7 +451,7 @@ fn exec_lean(c: &XCase) -> XOutcome {
             }
             Ok(Ok(())) => {
                 out.stats.checked_calls += 1;
-                let got = if matches!(c.kind, XKind::LeanSpi { .. }) { ctr.bytes.get() } else { ctr.strobes.get() };
+                let got = if matches!(c.kind, XKind::LeanSpi { .. } | XKind::LeanSpiBig { .. }) { ctr.bytes.get() } else { ctr.strobes.get() };
                 if got != want || ctr.bad_bytes.get() != 0 || ctr.bad_strobe_value.get() != 0 {
                     out.violation = Some(viol(
                         c,
@@ -474,6 +492,10 @@ pub fn directed_case(prop: &str, k: u64, thorough: bool) -> Option<XCase> {
         (XKind::LeanSpi { buf: 512 }, 3, &[1, 2, 3], u32::MAX),
         (XKind::LeanSpi { buf: 4096 }, 4, &[1, 2, 3, 4], u32::MAX),
         (XKind::LeanSpi { buf: 4096 }, 1, &[0x77], u32::MAX),
+        // pixel capacity of exactly 2^32 / just above: "any buffer length >= one pixel"
+        (XKind::LeanSpiBig { bytes: 1 << 33 }, 2, &[0x12, 0x34], 10),
+        (XKind::LeanSpiBig { bytes: (1 << 33) + 2 }, 2, &[0x12, 0x34], 10),
+        (XKind::LeanSpiBig { bytes: 3 << 32 }, 3, &[1, 2, 3], 7),
     ];
     let (list, quick_n) = if prop == "C07" { (par, 4usize) } else { (spi, 2usize) };
     let n = if thorough { list.len() } else { quick_n };
@@ -485,7 +507,7 @@ pub fn directed_case(prop: &str, k: u64, thorough: bool) -> Option<XCase> {
 }
 
 pub fn exec_xcase(c: &XCase) -> XOutcome {
-    if matches!(c.kind, XKind::LeanPar8 | XKind::LeanPar16 | XKind::LeanSpi { .. }) {
+    if matches!(c.kind, XKind::LeanPar8 | XKind::LeanPar16 | XKind::LeanSpi { .. } | XKind::LeanSpiBig { .. }) {
         return exec_lean(c);
     }
     let wr = make_world(c);
